@@ -107,6 +107,17 @@ CLAIMS["C30"] = dict(
     note="Offsets < 2^16 (quick, one range), 2^8/2^16 (two ranges) and 2^32 (three ranges) in the thorough tier; Vec and Bytes are models.",
 )
 
+CLAIMS["C33"] = dict(
+    engine="kani-transplant",
+    technique="bounded symbolic execution of ManifestNamingScheme (manifest_path, parse_version, detect_scheme, detect_scheme_staging), is_detached_version and the latest-version loop body of current_manifest_local with Kani+CBMC over all u64 versions",
+    text=("Decides for every u64 version and both naming schemes that the manifest file name parses back to the version and identifies its scheme, that detached "
+          "versions carry the 'd' prefix, are never parsed as attached versions and are detected as V2, that V2 names have fixed width and sort in reverse "
+          "version order (all versions < 2^20 quick; all attached versions thorough), and -- as one inductive step from an arbitrary accumulator -- that the "
+          "latest-version directory scan ignores temporary files, rejects mixed schemes and keeps the maximum version. Listing order of real object stores "
+          "and the renames of migrate_scheme_to_v2 are I/O and outside."),
+    note="format!, str::parse::<u64>, split_once, starts_with/ends_with are environment models on ASCII strings (core::fmt and core's string searchers are out of reach for CBMC); decimal expansion uniqueness is used as a lemma (registered digits).",
+)
+
 _IO = "truth lives in async object-store/tokio orchestration (crash points, interleavings, listings); Kani/CBMC has no model of tokio or object_store and no pure kernel implies the statement"
 NOT_APPLICABLE.update({
     "C01": "commit atomicity over crash points: " + _IO,
@@ -135,5 +146,5 @@ NOT_APPLICABLE.update({
     "C42": "relocatability is a statement about every path written by every writer being relative; decided by I/O",
 })
 _PLANNED = "planned in DESIGN.md §5 but its check is not built yet, so it is not claimed"
-for _p in ["C09", "C17", "C19", "C26", "C27", "C29", "C32", "C33", "C36", "C41", "C43"]:
+for _p in ["C09", "C17", "C19", "C26", "C27", "C29", "C32", "C36", "C41", "C43"]:
     NOT_APPLICABLE.setdefault(_p, _PLANNED)
